@@ -45,6 +45,30 @@ CHECKS = {
             "limit from both directions; both inequalities are theorems, so any excursion is a defect of the truncation.",
             "dense SVD at every cut (prod(d) <= 20000); slack 1e-8",
             "DESIGN.md section 3 / C05"),
+    "C07": ("exploration",
+            "reference-model monitor: every observable the real methods return is compared with its definition on the "
+            "dense vector; differential monitor fast path vs slow path; counting wrapper proves the cache was used",
+            "Expectation values, transition amplitudes, batched cached fast path on adversarial operator lists, "
+            "occupations through the shared per-model cache (interleaved states), RDMs and all entropies, for real and "
+            "genuinely complex Mps and purified MpDm states in any gauge.",
+            "coeff is a separate prefactor (library convention); prod(d) <= 1024",
+            "DESIGN.md section 3 / C07"),
+    "C15": ("exploration",
+            "reference-model monitor over generated expression programs: each node is evaluated with the library's "
+            "operators and denoted as a dense matrix that must equal the matrix expression of its operands; eq/hash laws",
+            "Random expression DAGs (depth <= 5) over all public arithmetic operators, scalar types, one/two quantum "
+            "number components, simplify tolerances; per-symbol quantum numbers tracked; equality/hash consistency over "
+            "pairs equal by different routes.",
+            "denotation through BasisSet.op_mat on small basis lists (prod(d) <= 256)",
+            "DESIGN.md section 3 / C15"),
+    "C16": ("exploration",
+            "reference-model monitor with references that do not use the matrix under test (own ladder algebra in an "
+            "enlarged basis, Gauss-Legendre quadrature, Pauli algebra, displaced-oscillator Hamiltonians, translation "
+            "operator), history-independence monitor on basis objects",
+            "Deterministic parameter grid + random parameters over every supported symbol of every basis class and the "
+            "Holstein / spin-boson / translation-invariant builders (all schemes, periodic wrap-around).",
+            "documented truncation at the highest level; N <= 12, powers <= 6; quadrature tolerance 1e-8",
+            "DESIGN.md section 3 / C16"),
     "C20": ("exploration",
             "icontract postcondition on bipartite_vertex_cover at every call site + hook on _decompose_graph + "
             "small-scope exhaustive enumeration of graphs, against the harness's own maximum matching / brute force",
